@@ -376,6 +376,11 @@ impl DefragmenterInner {
             }
         }
 
+        // Without any queue there is nothing to select (and nothing to evict)
+        if self.queues.is_empty() {
+            return None;
+        }
+
         // If we found no idle or existing queue, do not accept frames that are older than the
         // oldest queue
         if idle_queue.is_none() && (frame.header.stream_offset < lowest_queue_offset) {
